@@ -798,6 +798,17 @@ func (e *Env) call(x *ast.CallExpr) Val {
 		}
 		// the callee is called somewhere in the function but not before this point on this path: an arbitrary
 		// value (clauses guard such uses with called(f) == 1)
+		tracked := false
+		if root.ct != nil {
+			for _, a := range root.ct.Asserts {
+				if a.Name == nm {
+					tracked = true
+				}
+			}
+		}
+		if !tracked {
+			panic(e.fail("resultof(%s): calls of %s are not tracked (add a clause 'assert-call %s: true')", nm, nm, nm))
+		}
 		if rt := root.resultTypeOfCallee(nm); rt != nil {
 			v := root.freshVal("resultof.none", rt)
 			if len(x.Args) == 2 && len(v.Tuple) > 0 {
